@@ -24,6 +24,8 @@ def gen_batches(rng):
 
 
 def gen_scenario(rng, profile="mixed"):
+    if profile == "ownerdrop":
+        return gen_owner_drop(rng)
     if profile == "mixed" and rng.random() < 0.12:
         return gen_batches(rng)
     watch = rng.sample(SIGS, rng.randint(1, 3))
@@ -64,6 +66,27 @@ def gen_scenario(rng, profile="mixed"):
         for _ in range(rng.randint(1, 2)):
             lines.append("t%d close" % tid)
         tid += 1
+    lines.append("seed %d" % rng.randint(1, 2**31))
+    lines.append("maxsteps 30000")
+    return lines
+
+
+def gen_owner_drop(rng):
+    """every owner of the instance goes away (`dropall`) while deliveries of its signals are in progress on other
+    threads - one of them parked after a few of its own steps (after it has got hold of whatever it needs, before
+    it has used it) until the drop is over: whatever the actions captured - the write end of the self-pipe first
+    of all - is released by the dropping thread, never by a thread that is inside a delivery"""
+    watch = rng.sample(SIGS[:4], rng.randint(1, 2))
+    lines = ["setup watch " + " ".join(str(s) for s in watch), "setup style " + rng.choice("AB")]
+    tid = 0
+    for _ in range(rng.randint(1, 2)):
+        for _ in range(rng.randint(1, 3)):
+            lines.append("t%d deliver %d" % (tid, rng.choice(watch)))
+        tid += 1
+    lines.append("t%d dropall" % tid)
+    j = rng.randint(3, 11)
+    lines.append("holdat t0 %d 600" % j)
+    lines.append("delay t%d %d" % (tid, j + rng.randint(0, 3)))
     lines.append("seed %d" % rng.randint(1, 2**31))
     lines.append("maxsteps 30000")
     return lines
@@ -137,6 +160,9 @@ def run_one(scenario):
     mend = next((l for l in mout if l.startswith("END")), "END ?")
     # the harness reports a consumer blocked for ever as deadlock; the model as blocked
     st = status.replace("END deadlock", "END blocked")
+    if any(l.endswith(" dropall") for l in scenario):
+        # dropping the owners is not part of the L8 model: these runs are judged by the monitors alone
+        mobs, mend = canon, st
     return {"scenario": scenario, "impl": canon, "model": mobs, "schedule": sched, "status": st, "model_end": mend,
             "cap": int(cap[1]), "prefill": int(cap[3]), "unstarted": unstarted, "full": full, "leaked": leaked}
 
@@ -180,6 +206,10 @@ LINE = re.compile(r"^t(\d+) (H )?(.*)$")
 def monitors(r):
     scenario, trace, status = r["scenario"], r["impl"], r["status"]
     probs = {"C09": [], "C10": [], "C11": [], "C03": monitor_c03(r), "C12": [], "C01": []}
+    for i, l in enumerate(r.get("full", r["impl"])):
+        if l.endswith(" H drop-write-end"):
+            probs["C01"].append("line %d: the write end of the self-pipe, captured by the instance's actions, was released inside a signal handler (`%s`): by the thread running a delivery, not by the thread that dropped the instance" % (i, l))
+            probs["C03"].append("line %d: a delivery released what the action captured (`%s`): it frees and closes inside the signal handler" % (i, l))
     if r.get("leaked", "LEAKED []") != "LEAKED []":
         probs["C12"].append("after the instance and all its handles were dropped, an action it registered is still in the registry and still runs: %s" % r["leaked"])
         probs["C01"].append("the object that owned the registrations was dropped (removal returned), yet an action it registered still runs and what it captured is not released: %s" % r["leaked"])
